@@ -469,3 +469,58 @@ Proof.
   - intros Hn. rewrite Hn. split; [reflexivity|]. intros Hi.
     rewrite (reaches_run_of_initiated _ _ _ _ _ _ Hi) in Hn. discriminate.
 Qed.
+
+(* ------------------------------------------------------------------------------------------
+   5. launches: exits reported by a launched task and exits produced by a failed launch
+   ------------------------------------------------------------------------------------------ *)
+Definition task_ev (e : exit_ev) : l_ev :=
+  {| lv_launch := TaskExits (ev_reason e); lv_hook := ev_hook e; lv_stable := ev_stable e; lv_run_ok := ev_run_ok e |}.
+
+Lemma to_exit_task_ev e : to_exit_ev (task_ev e) = e.
+Proof. destruct e; reflexivity. Qed.
+
+Lemma view_after_l_task c s e : view_after_l c s (task_ev e) = view_after c s e.
+Proof. reflexivity. Qed.
+
+(* on histories in which every exit is reported by a launched task the refined views are the old ones *)
+Lemma views_l_task c : forall h s, views_l c s (map task_ev h) = views c s h.
+Proof.
+  induction h as [|e h IH]; intros s; [reflexivity|].
+  cbn [map views_l views]. rewrite to_exit_task_ev.
+  destruct (pm_step c s e) as [s1 cd]. rewrite view_after_l_task.
+  destruct (code_eqb cd Initiated); [rewrite IH|]; reflexivity.
+Qed.
+
+(* a failed launch is a failed submission or an unknown issue, never a success: it cannot reset the
+   re-submission counter, and it is subject to the same policy as any other exit *)
+Lemma failed_launch_reason l :
+  launched l = false -> (launch_reason l = SubmissionFailed \/ launch_reason l = UnknownIssue) /\
+                        forall s, on_exit s (launch_reason l) = s.
+Proof.
+  destruct l; cbn; try discriminate; intros _; (split; [auto|]); intros s; reflexivity.
+Qed.
+
+Lemma view_after_l_cases c s e :
+  (snd (pm_step c s (to_exit_ev e)) = Initiated -> view_after_l c s e = fresh_view) /\
+  (reaches_run c (on_exit s (launch_reason (lv_launch e))) (launch_reason (lv_launch e)) (lv_hook e) (lv_stable e) = false ->
+     view_after_l c s e = exited_view_l (lv_launch e) /\ snd (pm_step c s (to_exit_ev e)) <> Initiated).
+Proof.
+  unfold view_after_l, pm_step, to_exit_ev; cbn [ev_reason ev_hook ev_stable ev_run_ok]. split.
+  - intros Hi. rewrite (reaches_run_of_initiated _ _ _ _ _ _ Hi). reflexivity.
+  - intros Hn. rewrite Hn. split; [reflexivity|]. intros Hi.
+    rewrite (reaches_run_of_initiated _ _ _ _ _ _ Hi) in Hn. discriminate.
+Qed.
+
+(* the cap of five consecutive re-submissions over launch histories: however each failed submission
+   shows (reported by the launched task, or the launch itself raising), and with failed launches of
+   any kind in between - only a task that exits with Success starts a new stretch *)
+Lemma launch_reason_not_success l : l <> TaskExits Success -> launch_reason l <> Success.
+Proof. destruct l as [r| | |]; cbn; try discriminate. intros H E. apply H. rewrite E. reflexivity. Qed.
+
+Lemma resub_cap_launches c h :
+  Forall (fun e => lv_launch e <> TaskExits Success) h -> count_resub c init_st (map to_exit_ev h) <= 5.
+Proof.
+  intros Hn. apply (resub_cap c (map to_exit_ev h) init_st); [|discriminate].
+  apply Forall_forall. intros x Hx. apply in_map_iff in Hx. destruct Hx as [e [<- He]].
+  cbn. apply launch_reason_not_success. exact (proj1 (Forall_forall _ _) Hn e He).
+Qed.
